@@ -2,6 +2,8 @@ package simrt
 
 import (
 	"fmt"
+	"runtime"
+	"strings"
 	"sync"
 	"unsafe"
 )
@@ -15,7 +17,13 @@ func MutexLock(m *sync.Mutex) {
 		m.Lock()
 		return
 	}
-	s.yield(func() bool { return s.mutexes[m] == nil }, false, "Mutex.Lock")
+	desc := "Mutex.Lock"
+	if s.cfg.Trace {
+		if h := s.mutexes[m]; h != nil {
+			desc = fmt.Sprintf("Mutex.Lock(%p held by t%d %s) at %s", m, h.ID, h.Name, caller())
+		}
+	}
+	s.yield(func() bool { return s.mutexes[m] == nil }, false, desc)
 	if !m.TryLock() {
 		fatal("model says mutex %p free, real TryLock failed", m)
 	}
@@ -144,7 +152,15 @@ func RWLock(m *sync.RWMutex) {
 		return
 	}
 	st := s.rw(m)
-	s.yield(func() bool { return st.w == nil }, false, "RWMutex.Lock")
+	desc := "RWMutex.Lock"
+	if s.cfg.Trace {
+		hn := "-"
+		if st.w != nil {
+			hn = st.w.Name
+		}
+		desc = fmt.Sprintf("RWMutex.Lock(%p writer=%s readers=%d) at %s", m, hn, st.active, caller())
+	}
+	s.yield(func() bool { return st.w == nil }, false, desc)
 	st.w = s.cur // announced: later readers block
 	if st.active > 0 {
 		s.yield(func() bool { return st.active == 0 }, false, "RWMutex.Lock(wait readers)")
@@ -412,7 +428,25 @@ func preAtomic() {
 	}
 }
 
-var _ = fmt.Sprint
+//go:norace
+func caller() string {
+	var pcs [8]uintptr
+	n := runtime.Callers(3, pcs[:])
+	fr := runtime.CallersFrames(pcs[:n])
+	out := ""
+	for i := 0; i < 4; i++ {
+		f, more := fr.Next()
+		name := f.Function
+		if j := strings.LastIndex(name, "/"); j >= 0 {
+			name = name[j+1:]
+		}
+		out += fmt.Sprintf("%s:%d ", name, f.Line)
+		if !more {
+			break
+		}
+	}
+	return out
+}
 
 // Bind0 builds the replacement for a method value such as `mu.RUnlock`: the
 // receiver is bound now, the operation runs (through simrt) when called.
